@@ -208,7 +208,7 @@ func (f *Frame) placeOf(v ssa.Value) *Place {
 // safety emits a safety obligation (if the unit claims safety) and assumes the condition afterwards.
 func (f *Frame) safety(kind string, cond string, in ssa.Instruction) {
 	e := f.e
-	if e.unit.Safety && (f.depth == 0) {
+	if e.unit.Safety {
 		e.safetyOrd[kind]++
 		id := fmt.Sprintf("%s#safety[%s#%d]", e.unit.Key(), kind, e.safetyOrd[kind])
 		e.oblige("safety", id, kind, f.reach, cond, e.P.pos(in.Pos()))
